@@ -316,6 +316,9 @@ func runAudit(repo, verif, prop string, seed int64) int {
 				}
 				results[i] = evalSeed(p, sel[i])
 			}
+			if p != nil {
+				purgeCaches(p)
+			}
 		}(idx)
 	}
 	wg.Wait()
